@@ -6,13 +6,17 @@
   Code k mapped; use-after-free is an explicit `Fault`).
   The declaration-level mechanism — field order of `ModuleData`, `TypedFunc`
   owning `self.inner.clone()`, what `codegen` clones into the module, who calls
-  `free_memory` — is `Gen.Lifetime.facts`, regenerated from src/codegen/mod.rs,
+  `free_memory`, what the closure made by `TypedFunc::into_func` captures, and
+  which struct owns every piece of data whose address the code generator bakes
+  into the machine code — is `Gen.Lifetime.facts`, regenerated from src/codegen/mod.rs,
   src/pipeline.rs and src/runtime/func.rs on every run.  Every theorem below is
   about `run facts ops` for ALL operation lists `ops` (induction over the list,
   Lemmas/Lifetime*.lean) and is discharged through `facts_good : goodB facts`,
   a `decide` on the generated facts: a handle that stops owning the `Arc`, a
-  JIT-first field order, a constant that is no longer cloned, or a second
-  `free_memory` site makes `facts_good` — hence every theorem — fail to check.
+  JIT-first field order, a constant that is no longer cloned, a second
+  `free_memory` site, an `into_func` closure that captures only the function
+  pointer, or code-referenced data owned by the package instead of the shared
+  `ModuleData` / the JIT module makes `facts_good` — hence every theorem — fail to check.
 -/
 import RotoV.Model.Lifetime
 import RotoV.Lemmas.Lifetime
@@ -27,9 +31,11 @@ theorem facts_good : goodB facts = true := by decide
 
 theorem inv (ops : List Op) : Inv (run facts ops) := inv_run (good_of_goodB facts_good) ops
 
-/-- **T1.** After any history, every live handle's module, code, script
-    constants and (if its script uses them) registered constant and closure
-    have never been released, a call through it returns what it returned when
+/-- **T1.** After any history, every live handle — also one that was turned
+    into a closure by `into_func` — has its module, code, script constants and
+    (if its script uses them) registered constant and closure never released and
+    every piece of out-of-line data its code refers to still there, a call
+    through it returns what it returned when
     the handle was created — the script's value — and no use-after-free or
     double free has happened anywhere. -/
 theorem live_handle_callable (ops : List Op) (i : Nat) (h : Handle)
@@ -40,6 +46,7 @@ theorem live_handle_callable (ops : List Op) (i : Nat) (h : Handle)
       ∧ (∀ c, s.relCount (.scriptConst h.k c) = 0)
       ∧ ((s.info h.k).useConst = true → s.relCount (.regConst (s.info h.k).rt) = 0)
       ∧ ((s.info h.k).useClos = true → s.relCount (.closure (s.info h.k).rt) = 0)
+      ∧ dataAlive s h.k = true
       ∧ callHandle s i = some h.expect
       ∧ h.expect = .ok (s.info h.k).value
       ∧ s.faults = [] := by
@@ -50,11 +57,11 @@ theorem live_handle_callable (ops : List Op) (i : Nat) (h : Handle)
   have hk := hI.strong_pos_of_handle hmem
   have hne : ¬ s.strong h.k = 0 := by omega
   have hex := hc.expect_ok h hmem
-  refine ⟨hk, hc.mem_alive hk, ?_, ?_, hc.sc_alive hk, ?_, ?_, ?_, hex, hc.no_fault⟩
+  refine ⟨hk, hc.mem_alive hk, ?_, ?_, hc.sc_alive hk, ?_, ?_, dataAlive_of_mapped hc hk, ?_, hex, hc.no_fault⟩
   · rw [hc.mapped_eq]; simpa using hk
   · rw [hc.code_rel]; simp [hne]
   · intro hu; exact hc.const_alive hk ((hc.uses h.k).1 hu)
-  · intro hu; exact hc.clos_alive hk ((hc.uses h.k).2 hu)
+  · intro hu; exact hc.clos_alive hk ((hc.uses h.k).2.1 hu)
   · show (s.hs[i]?).map (fun h => callRes s h.k) = some h.expect
     rw [hi, Option.map_some, callRes_ok hc hk, hex]
 
@@ -130,8 +137,8 @@ theorem independent (ops : List Op) (op : Op) (k j : Nat)
     and a handle taken, version 2 compiled, then runtime, both packages dropped:
     the handle of version 1 is still there and callable -/
 def reload : List Op :=
-  [.buildRuntime 0, .registerConst 0, .registerClosure 0, .compile 0 1 2 true true 1240, .getHandle 1,
-   .compile 0 2 1 true true 2238, .dropRuntime 0, .dropPackage 1, .dropPackage 2]
+  [.buildRuntime 0, .registerConst 0, .registerClosure 0, .compile 0 1 2 true true true 1240, .getHandle 1,
+   .compile 0 2 1 true true true 2238, .dropRuntime 0, .dropPackage 1, .dropPackage 2]
 
 example : (run facts reload).hs.length = 1 ∧ callHandle (run facts reload) 0 = some (.ok 1240)
     ∧ (run facts reload).relCount (.code 2) = 1 ∧ (run facts reload).relCount (.scriptConst 2 0) = 1
@@ -154,8 +161,32 @@ example : (run { facts with moduleFields := [.jit, .constants, .rotoConstants, .
 example : callHandle (run { facts with handleHoldsArc := false } reload) 0 = some .uaf := by
   decide
 
+/-- a handle turned into a closure by `into_func` survives its package and the runtime like any handle … -/
+def reloadFn : List Op :=
+  [.buildRuntime 0, .registerConst 0, .registerClosure 0, .compile 0 1 2 true true true 1240, .getHandle 1,
+   .intoFunc 0, .dropPackage 1, .dropRuntime 0]
+
+example : (run facts reloadFn).hs.map (·.isFn) = [true] ∧ callHandle (run facts reloadFn) 0 = some (.ok 1240)
+    ∧ (run facts reloadFn).relCount (.code 1) = 0 ∧ (run facts reloadFn).relCount (.closure 0) = 0
+    ∧ (run facts (reloadFn ++ [.cloneHandle 0])).hs.length = 1
+    ∧ (run facts (reloadFn ++ [.dropHandle 0])).relCount (.code 1) = 1
+    ∧ (run facts (reloadFn ++ [.dropHandle 0])).relCount (.closure 0) = 1 := by
+  decide
+
+/-- … and T1 has teeth there: a closure that captures only the function pointer lets the module go when
+    `into_func` returns; the package drop then frees the code under the closure -/
+example : callHandle (run { facts with closureKeepsArc := false } reloadFn) 0 = some .uaf
+    ∧ (run { facts with closureKeepsArc := false } reloadFn).relCount (.closure 0) = 1 := by
+  decide
+
+/-- T1 has teeth for code-referenced data: literal bytes owned by the package die with it while the handle
+    lives (the call's result depended on them) -/
+example : callHandle (run { facts with dataHolders := [.jit, .package] } reload) 0 = some .uaf
+    ∧ callHandle (run { facts with dataHolders := [.jit, .package] } (reload.take 7)) 0 = some (.ok 1240) := by
+  decide
+
 /-- the mapped-code hypothesis of T3 is met by every freshly compiled module -/
-example : (run facts [.buildRuntime 0, .compile 0 1 1 false false 7]).mapped 1 = true := by decide
+example : (run facts [.buildRuntime 0, .compile 0 1 1 false false false 7]).mapped 1 = true := by decide
 
 /-- T4 is not vacuous: with a live handle of version 1, dropping the package of
     version 2 is an operation on 2 ≠ 1, version 1 has a callable handle, and version 2's own
